@@ -679,8 +679,13 @@ func writeReplay(p *Prog, verif, replayDir, prop string, n *NameResult, why stri
 			os.WriteFile(qf, b, 0644)
 			rec["query_file"] = qf
 		}
-		if n.Failing.Res.Status == "sat" && o.Unit.fc != nil && o.Unit.fc.Replay != "" {
-			model := parseValues(o, n.Failing.Res.Output)
+		if o.Unit.fc != nil && o.Adapter != "" {
+			model := map[string]string{}
+			if n.Failing.Res.Status == "sat" {
+				model = parseValues(o, n.Failing.Res.Output)
+			} else {
+				rec["model_note"] = "the solver gave no model (" + n.Failing.Res.Status + "); the adapter runs with its default input and its corpus"
+			}
 			// guided search for a realistic model first
 			var gst []string
 			nguides := len(o.Guides)
@@ -704,8 +709,8 @@ func writeReplay(p *Prog, verif, replayDir, prop string, n *NameResult, why stri
 			}
 			rec["guided_search"] = gst
 			rec["model"] = model
-			src, out, ok, err := runReplay(p, verif, o.Unit.fc.Replay, model, scratch)
-			rec["replay_adapter"] = o.Unit.fc.Replay
+			src, out, ok, err := runReplay(p, verif, o.Adapter, model, scratch)
+			rec["replay_adapter"] = o.Adapter
 			rec["replay_test_source"] = src
 			rec["replay_output"] = replayExcerpt(out)
 			if err != nil {
@@ -760,10 +765,17 @@ func runReplay(p *Prog, verif, adapter string, model map[string]string, scratch 
 		dir = m[1]
 	}
 	missing := ""
+	defaults := map[string]string{}
+	for _, m := range regexp.MustCompile(`(?m)^// default: (\w+)=(.*)$`).FindAllStringSubmatch(tmpl, -1) {
+		defaults[m[1]] = strings.TrimSpace(m[2])
+	}
 	src = phRe.ReplaceAllStringFunc(tmpl, func(ph string) string {
 		k := phRe.FindStringSubmatch(ph)[1]
 		v, ok := model[k]
 		if !ok {
+			if d, okd := defaults[k]; okd {
+				return d
+			}
 			missing = k
 			return "nil"
 		}
